@@ -60,6 +60,7 @@ def apply_post(x, rules, fill_seed):
     ["shift", c]    square blocks: block += c * identity         (makes them invertible)
     ["zero", k]     the k-th stored block := 0
     ["pow2", e]     block := block * 2**(+e) for even-numbered stored blocks, 2**(-e) for odd ones (exact)
+    ["illcond", k]  columns (rows of wide blocks) 1.. := first one + 10**-k * themselves: condition number ~ 10**k
     ["diag", step]  block := rectangular diagonal with the integers 1 + i + step * n on it (n the
                     position of the block): exactly representable, distinct singular values
                     (step 0: the same spectrum in every sector -> ties across sectors)
@@ -84,6 +85,16 @@ def apply_post(x, rules, fill_seed):
             elif name == "pow2":
                 # exact rescaling of alternate sectors by 2**(+-e): a wide dynamic range ACROSS sectors
                 nb = b * (2.0 ** (int(args[0]) if n % 2 == 0 else -int(args[0])))
+            elif name == "illcond":
+                # nearly dependent columns / rows: condition number ~ 10**k, full numerical rank
+                nb = np.array(b, dtype=dt)
+                eps = 10.0 ** (-int(args[0]))
+                if b.shape[0] >= b.shape[1]:
+                    for j in range(1, b.shape[1]):
+                        nb[:, j] = b[:, 0] + eps * b[:, j]
+                else:
+                    for j in range(1, b.shape[0]):
+                        nb[j, :] = b[0, :] + eps * b[j, :]
             elif name == "diag":
                 nb = np.zeros(b.shape)
                 k = min(b.shape)
@@ -356,6 +367,26 @@ def wide_and_uneven_matrices():
                         yield {"spec": spec, "post": [["diag", 1], ["pow2", e]]}
                     spec = {"sym": sym, "fermionic": fermionic, "static": True, "indices": indices, "charge": jcharge(G.zero(sym)), "fill_seed": 6, "dtype": "float64", "sectors": "all"}
                     yield {"spec": spec, "post": [["diag", 2]]}
+
+
+def tall_and_single_precision_matrices():
+    """(a) very tall / very wide blocks (aspect ratio 40 .. 100) that are well conditioned, ill conditioned
+    (condition number 1e5, 1e7) or exactly rank deficient; (b) float32 / complex64 data on small blocks."""
+    for sym, pool in (("Z2", [0, 1]), ("U1", [-1, 0, 2]), ("Z2Z2", [(0, 0), (1, 1)])):
+        for big, small in ((80, 2), (100, 1), (120, 3), (65, 2)):
+            for tall in (True, False):
+                for d0 in (False, True):
+                    for fermionic in (False, True):
+                        cmb = [[jcharge(c), big + i] for i, c in enumerate(pool)]
+                        cms = [[jcharge(c), small] for c in pool]
+                        indices = [{"cm": cmb if tall else cms, "dual": d0}, {"cm": cms if tall else cmb, "dual": not d0}]
+                        for n, post in enumerate(([], [["illcond", 5]], [["illcond", 7]], [["lowrank", 1]])):
+                            dtype = ("float64", "complex128")[(n + d0 + fermionic) % 2]
+                            spec = {"sym": sym, "fermionic": fermionic, "static": True, "indices": indices, "charge": jcharge(G.zero(sym)), "fill_seed": 7 + n, "dtype": dtype, "sectors": "all"}
+                            yield {"spec": spec, "post": post}
+    rng = np.random.default_rng(4242)
+    for k in range(400):
+        yield random_matrix(rng, dtypes=("float32", "complex64"), degenerate=0.2)
 
 
 def herm_matrix(rng, sym, fermionic, dtype, fused=False):
